@@ -163,7 +163,7 @@ func init() {
 						ev = append(ev, L(I(2), Bool(el.ordered), iv))
 					case 7:
 						el.kind = 3
-						nr, nc := rng.Range(1, 3), rng.Range(1, 3)
+						nr, nc := rng.Range(1, 4), rng.Range(1, 3)
 						t := model.NewTable(nr, nc)
 						for i := 0; i < nr; i++ {
 							var row []string
@@ -171,6 +171,13 @@ func init() {
 								a := g.anchor()
 								el.anchors = append(el.anchors, a)
 								t.SetCell(i, j, model.Cell{Text: "cell " + a, RowSpan: 1, ColSpan: 1})
+								row = append(row, "cell "+a)
+							}
+							// a ragged table: a body row with more cells than the header row
+							if i > 0 && rng.Chance(1, 3) {
+								a := g.anchor()
+								el.anchors = append(el.anchors, a)
+								t.Rows[i] = append(t.Rows[i], model.Cell{Text: "cell " + a, RowSpan: 1, ColSpan: 1})
 								row = append(row, "cell "+a)
 							}
 							el.cells = append(el.cells, row)
